@@ -789,3 +789,61 @@ func endpointOf(key string) string {
 func TestC16Import(t *testing.T) {
 	Drive(t, "C16", genC16, runC16)
 }
+
+// TestC16SlowImport: the tracker changes while an import is running. The run is slow (the simulated tracker
+// takes 6.5 s to answer one request, longer than the importer's 5 s safety margin) and error-free; a comment is
+// added to an issue the importer has already dealt with. The cursor stored by that run must not be later than
+// the moment the run started, otherwise the next incremental import never lists that issue again.
+// One fixed scenario, about 8 s.
+func TestC16SlowImport(t *testing.T) {
+	rep := report.For("C16", t.Name())
+	defer rep.Close()
+	tr := newC16Tracker()
+	defer tr.srv.Reset()
+	tr.apply(c16Round{NewIssues: []c16Issue{{Author: 0, Title: "first issue", Desc: "d1"}, {Author: 1, Title: "second issue", Desc: "d2"}},
+		Events: []c16Event{{Issue: 0, Kind: "comment", User: 1, Text: "an early comment"}, {Issue: 1, Kind: "comment", User: 2, Text: "another"}}}, true, 0)
+	main, err := newC16Repo(tr.srv.URL())
+	if err != nil {
+		t.Fatalf("harness: %v", err)
+	}
+	defer main.close()
+	fired := false
+	tr.srv.OnRequest = func(key string) {
+		if fired || !strings.HasPrefix(key, "GET /api/v4/projects/42/issues/2/notes page=1") {
+			return
+		}
+		fired = true
+		// the importer is busy with issue 2: somebody comments on issue 1 right now
+		tr.srv.Locked(func() {
+			is := tr.srv.Issues[0]
+			now := time.Now()
+			is.Notes = append(is.Notes, gitlabsim.Note{ID: tr.srv.NextID(), Body: "still broken for me", AuthorID: 3, CreatedAt: now, UpdatedAt: now})
+			is.UpdatedAt = now
+		})
+		time.Sleep(6500 * time.Millisecond)
+	}
+	defer func() { tr.srv.OnRequest = nil }()
+	c := map[string]any{"scenario": "comment on issue 1 while the importer reads issue 2, request delayed 6.5 s"}
+	rep.Case("slow-import", true, []string{"tracker-changes-during-a-slow-import"}, c)
+	if _, hadErr, err := main.importRound(); err != nil || hadErr {
+		rep.Fail(t, "C16/slow-import/first-import-reports-error", fmt.Sprintf("%v %v", err, main.lastErrors), c)
+		return
+	}
+	if !fired {
+		t.Fatalf("harness: the notes of issue 2 were never requested")
+	}
+	tr.srv.OnRequest = nil
+	// the next incremental import, some time later
+	if _, hadErr, err := main.importRound(); err != nil || hadErr {
+		rep.Fail(t, "C16/slow-import/second-import-reports-error", fmt.Sprintf("%v %v", err, main.lastErrors), c)
+		return
+	}
+	got, err := main.compiled()
+	if err != nil {
+		rep.Fail(t, "C16/imported-bug-invalid/"+Normalize(err.Error()), err.Error(), c)
+		return
+	}
+	if d := diffExpected(tr.expected(), got); d != "" {
+		rep.Fail(t, "C16/change-made-during-an-import-is-never-imported/"+d[:strings.Index(d, ":")], "a comment was added to an issue while a slow, error-free import was running; the following incremental import does not bring it:\n"+d, c)
+	}
+}
